@@ -154,17 +154,70 @@ Proof.
   - assert (H : parse_generic toks = Lib eSyntax) by exact E. rewrite H. reflexivity.
 Qed.
 
+Lemma generic_head_P {A} (P : A -> Prop) (a b : list tok -> A) toks :
+  (forall r, P (a r)) -> P (b toks) -> P (match toks with TId [92; 35] :: r' => a r' | _ => b toks end).
+Proof. intros Ha Hb. destruct (generic_head a b toks) as [(r & _ & E)|E]; rewrite E; auto. Qed.
+
+(* no fuel marker: Ok, a documented library error or the documented ValueError *)
+Definition NiceR {A} (r : res A) : Prop :=
+  match r with Ok _ => True | Lib e => zlib e | Internal e => e = iValueError end.
+Lemma nicer_nice {A} (r : res A) : NiceR r -> Nice r.
+Proof. destruct r; cbn; auto. Qed.
+Lemma nicer_bind {A B} (r : res A) (k : A -> res B) :
+  NiceR r -> (forall a, NiceR (k a)) -> NiceR (bind r k).
+Proof. destruct r as [a|e|e]; cbn [bind]; auto. Qed.
+Lemma nicer_of_syn {A} (r : res A) : Syn r -> NiceR r.
+Proof. destruct r; cbn; auto; [intros ->; zl|contradiction]. Qed.
+
+(* a known type in generic syntax: the wire layouts of names / integers / IPv4 addresses *)
+Ltac nicer_case :=
+  repeat match goal with
+         | |- NiceR (Ok _) => exact Logic.I
+         | |- NiceR (Lib _) => zl
+         | |- NiceR (if ?b then _ else _) => destruct b
+         | |- NiceR (match ?x with _ => _ end) => destruct x
+         | |- NiceR (let '(_, _) := ?x in _) => destruct x
+         end.
+
+Lemma nicer_wire_fields : forall ks bs rel zo, NiceR (wire_fields ks bs rel zo).
+Proof.
+  induction ks as [|k ks IH]; intros bs rel zo; cbn [wire_fields].
+  - destruct bs; [exact Logic.I|zl].
+  - apply nicer_bind.
+    + destruct k; nicer_case.
+    + intros [v rest]. apply nicer_bind; [apply IH|intros; exact Logic.I].
+Qed.
+
 (* a record's text: parsed, SyntaxError, or outside the modelled fragment *)
-Lemma nice_parse_rdata ty toks lerr co rel zo : Nice (parse_rdata ty toks lerr co rel zo).
+Lemma nicer_parse_rdata ty toks lerr co rel zo : NiceR (parse_rdata ty toks lerr co rel zo).
 Proof.
   unfold parse_rdata. destruct (tbl_by_code type_table ty) as [[nm ks]|].
-  - assert (H : Nice (do rd <- parse_fields ks toks co rel zo; if lerr then Lib eSyntax else Ok rd)).
-    { apply nice_bind; [apply syn_nice, syn_parse_fields|]. intros rd _. destruct lerr; [zl|exact Logic.I]. }
-    destruct (generic_head (fun _ => @Lib rdata eUnmodelled)
-                (fun toks => do rd <- parse_fields ks toks co rel zo; if lerr then Lib eSyntax else Ok rd) toks)
-      as [(r & _ & E)|E]; rewrite E; [zl|exact H].
-  - apply nice_bind; [apply syn_nice, syn_parse_generic|]. intros rd _. destruct lerr; [zl|exact Logic.I].
+  - assert (H : NiceR (do rd <- parse_fields ks toks co rel zo; if lerr then Lib eSyntax else Ok rd)).
+    { apply nicer_bind; [apply nicer_of_syn, syn_parse_fields|]. intros rd. destruct lerr; [zl|exact Logic.I]. }
+    pose (X := if wire_modelled ks then
+                 do g <- parse_generic toks;
+                 match g with
+                 | [_; _; VRest hs] =>
+                     do rd <- wire_fields ks (hex_bytes (concat hs)) rel zo; if lerr then Lib eSyntax else Ok rd
+                 | _ => Lib eSyntax
+                 end
+               else @Lib rdata eUnmodelled).
+    assert (G : NiceR X); [unfold X|
+      exact (generic_head_P (@NiceR rdata) (fun _ => X)
+               (fun toks => do rd <- parse_fields ks toks co rel zo; if lerr then Lib eSyntax else Ok rd) toks
+               (fun _ => G) H)].
+    destruct (wire_modelled ks); [|zl].
+    apply nicer_bind; [apply nicer_of_syn, syn_parse_generic|]. intros g.
+    repeat match goal with
+           | |- NiceR (match ?x with _ => _ end) => is_var x; destruct x
+           | |- NiceR (Lib _) => zl
+           end.
+    apply nicer_bind; [apply nicer_wire_fields|]. intros rd. destruct lerr; [zl|exact Logic.I].
+  - apply nicer_bind; [apply nicer_of_syn, syn_parse_generic|]. intros rd. destruct lerr; [zl|exact Logic.I].
 Qed.
+
+Lemma nice_parse_rdata ty toks lerr co rel zo : Nice (parse_rdata ty toks lerr co rel zo).
+Proof. apply nicer_nice, nicer_parse_rdata. Qed.
 
 (* ---------- names ---------- *)
 Definition name_codes (e : Z) : Prop :=
@@ -512,34 +565,13 @@ Qed.
 
 (* ---------- dns.zonefile.read_rrsets ---------- *)
 (* here the fuel marker is excluded directly: each logical line consumes input *)
-Definition NiceR {A} (r : res A) : Prop :=
-  match r with Ok _ => True | Lib e => zlib e | Internal e => e = iValueError end.
 
 Lemma nice_no_fuel {A} (r : res A) : Nice r -> (r <> Internal iFuelZ) -> NiceR r.
 Proof. destruct r as [a|e|e]; cbn; auto. intros [->| ->] H; [reflexivity|]. exfalso; apply H; reflexivity. Qed.
 
-Lemma nicer_bind {A B} (r : res A) (k : A -> res B) :
-  NiceR r -> (forall a, NiceR (k a)) -> NiceR (bind r k).
-Proof. destruct r as [a|e|e]; cbn [bind]; auto. Qed.
-
-Lemma nicer_of_syn {A} (r : res A) : Syn r -> NiceR r.
-Proof. destruct r; cbn; auto; [intros ->; zl|contradiction]. Qed.
 
 Lemma nicer_get_ident toks : NiceR (get_ident toks).
 Proof. destruct toks as [|[v|v] r]; cbn; try exact Logic.I; zl. Qed.
-
-Lemma nicer_parse_rdata ty toks lerr co rel zo : NiceR (parse_rdata ty toks lerr co rel zo).
-Proof.
-  pose proof (nice_parse_rdata ty toks lerr co rel zo) as N. apply nice_no_fuel; [exact N|].
-  unfold parse_rdata. destruct (tbl_by_code type_table ty) as [[nm ks]|].
-  - destruct (generic_head (fun _ => @Lib rdata eUnmodelled)
-                (fun toks => do rd <- parse_fields ks toks co rel zo; if lerr then Lib eSyntax else Ok rd) toks)
-      as [(r & _ & E)|E]; rewrite E; [discriminate|].
-    pose proof (syn_parse_fields ks toks co rel zo) as S.
-    destruct (parse_fields ks toks co rel zo); cbn [bind]; [destruct lerr; discriminate|discriminate|contradiction].
-  - pose proof (syn_parse_generic toks) as S.
-    destruct (parse_generic toks); cbn [bind]; [destruct lerr; discriminate|discriminate|contradiction].
-Qed.
 
 Lemma nicer_lift_name {A} esc (r : res A) :
   (forall e, r = Lib e -> name_codes e) -> (forall e, r <> Internal e) -> NiceR (lift_name esc r).
